@@ -333,6 +333,13 @@ def run_C07(ctx):
             ntw += 1
             ctx.evaluations += 1
             ctx.nontrivial.add((gname, payload))
+        # every accepted run: the value returned by the real parser against the value of the proved model on the same input
+        # (the model's value is the bottom-up evaluation of the actions over the parse tree, theorem C07_values)
+        if raw.startswith('A|') and ms and ms.startswith('A '):
+            iv, mv = genrun.parse_result(raw)['value'], ms.split(' ')[1]
+            if str(iv) != str(mv):
+                ctx.violation('counterexample', 'grammar %s variant %s input %r: the parser returns %s, evaluating the actions bottom-up over the parse tree gives %s'
+                              % (gname, vn, payload, iv, mv), case_of(out, gname, variant=vn, input=payload, observed=raw, expected=ms), interface='I6')
     ctx.extra['shared_action_text_runs'] = ntw
     if not had_counterexample(ctx):
         vd = [d for d in i6_diffs(out) if 'value differs' in d['what']]
@@ -552,39 +559,54 @@ def run_C03(ctx):
 
 
 def digraph_diff(ctx):
-    """The real Digraph/Traverse/Union on random relations with cycles against transitive union."""
+    """The real Digraph/Traverse/Union on random relations with cycles against transitive union; half of the cases
+    chain two passes (the result of the first is the base of the second, as Read sets feed the Follow computation)."""
     bindir = vlib.build_impl()
-    n = 300 if ctx.quick else 5000
+    n = 600 if ctx.quick else 10000
     cases = []
-    for _ in range(n):
-        k = ctx.rnd.randint(1, 7)
+    for i in range(n):
+        k = ctx.rnd.randint(1, 8)
         pairs = [(ctx.rnd.randrange(k), ctx.rnd.randrange(k)) for _ in range(ctx.rnd.randint(0, 2 * k))]
-        fp = [sorted(set(ctx.rnd.randrange(6) for _ in range(ctx.rnd.randint(0, 3)))) for _ in range(k)]
-        cases.append(dict(k=k, pairs=pairs, fp=fp))
+        fp = [sorted(set(ctx.rnd.randrange(8) for _ in range(ctx.rnd.randint(0, 4)))) for _ in range(k)]
+        c = dict(k=k, pairs=pairs, fp=fp)
+        if i % 2:
+            # the first relation of a chained case is acyclic (x -> y only for x < y), as `reads` is for every LR(k) grammar;
+            # with a cyclic first relation the members of a component share one slice and the second pass of the unchanged
+            # code can overwrite it (observation recorded in DESIGN.md section 6; no grammar exhibiting it was found)
+            c['pairs'] = [(min(a, b), max(a, b)) for (a, b) in pairs if a != b]
+            c['pairs2'] = [(ctx.rnd.randrange(k), ctx.rnd.randrange(k)) for _ in range(ctx.rnd.randint(0, 2 * k))]
+        cases.append(c)
     r = vlib.sh([os.path.join(bindir, 'digraph')], input='\n'.join(json.dumps(c) for c in cases) + '\n', timeout=600)
     outs = [json.loads(l) for l in r.stdout.splitlines() if l.startswith('[')]
-    bad = 0
-    cyc = 0
-    for c, o in zip(cases, outs):
-        k = c['k']
+
+    def closure(k, pairs, base):
         reach = [set([i]) for i in range(k)]
         ch = True
         while ch:
             ch = False
-            for (x, y) in c['pairs']:
+            for (x, y) in pairs:
                 if not reach[y] <= reach[x]:
                     reach[x] |= reach[y]
                     ch = True
-        if any(x in reach[y] and y in reach[x] and x != y for x in range(k) for y in range(k)):
-            cyc += 1
-        want = [sorted(set(t for j in reach[i] for t in c['fp'][j])) for i in range(k)]
+        cyc = any(x in reach[y] and y in reach[x] and x != y for x in range(k) for y in range(k))
+        return [sorted(set(t for j in reach[i] for t in base[j])) for i in range(k)], cyc
+    bad = 0
+    cyc = 0
+    for c, o in zip(cases, outs):
+        want, cy = closure(c['k'], c['pairs'], c['fp'])
+        if 'pairs2' in c:
+            want, cy2 = closure(c['k'], c['pairs2'], want)
+            cy = cy or cy2
+        cyc += cy
         got = [sorted(set(x)) for x in o]
         if want != got:
             bad += 1
             if bad <= 2:
-                ctx.violation('counterexample', 'Digraph on relation %s with base sets %s gives %s, the union over R* is %s' % (c['pairs'], c['fp'], got, want),
-                              dict(relation=c['pairs'], base=c['fp'], observed=got, expected=want), interface='I3d')
-    return dict(relations=len(cases), with_cycles=cyc, failures=bad)
+                ctx.violation('counterexample', 'Digraph on relation %s%s with base sets %s gives %s, the union over R* is %s' % (c['pairs'], (' then ' + str(c['pairs2'])) if 'pairs2' in c else '', c['fp'], got, want),
+                              dict(relation=c['pairs'], relation2=c.get('pairs2'), base=c['fp'], observed=got, expected=want), interface='I3d')
+    if len(outs) != len(cases):
+        ctx.violation('no-failing-input-found', 'the digraph harness answered %d of %d cases: %s' % (len(outs), len(cases), r.stderr[-300:]), {}, interface='I3d')
+    return dict(relations=len(cases), with_cycles=cyc, two_pass=sum(1 for c in cases if 'pairs2' in c), failures=bad)
 
 
 # ------------------------------------------------------------------ C09
